@@ -1,13 +1,743 @@
 (* C08 — lemmas about the segment id generator model. *)
-From Coq Require Import ZArith List Bool Lia.
+From Coq Require Import ZArith List Bool Lia Sorted.
 From FV Require Import Generated.Consts C08.Model.
 Import ListNotations.
 Open Scope Z_scope.
 
+(* ------------------------------------------------------------------------------------ *)
+(* one generator                                                                         *)
+
+(* the counter c and its segment (c*S, (c+1)*S] are representable, and so is the successor of
+   the segment's last id (Next computes lastID+1 before comparing) *)
+Definition fits (S c : Z) : Prop :=
+  - 2 ^ 63 <= c * S /\ (c + 1) * S + 1 < 2 ^ 63 /\ - 2 ^ 63 <= c /\ c + 1 < 2 ^ 63.
+
+Definition in_seg (S c i : Z) : Prop := c * S < i <= (c + 1) * S.
+
+Lemma int64_small v : - 2 ^ 63 <= v < 2 ^ 63 -> int64 v = v.
+Proof. intros H. unfold int64. rewrite Z.mod_small; lia. Qed.
+
+(* a generator holding counter c: its position lies in the closed segment *)
+Definition gen_ok (S : Z) (g : gen) : Prop :=
+  g_step g = S /\ fits S (g_counter g) /\
+  g_counter g * S <= g_last g <= (g_counter g + 1) * S.
+
+Lemma new_gen_step s : 1 <= g_step (new_gen s).
+Proof. unfold new_gen. destruct (s <=? 0) eqn:E; cbn [g_step]; [unfold x_uuid_DefaultSeqStep|]; lia. Qed.
+
+Lemma reload_ok S g c :
+  1 <= S -> g_step g = S -> fits S c ->
+  reload g (StoreOk c) = (None, mkGen S c (c * S)).
+Proof.
+  intros HS Hg (F1 & F2 & F3 & F4). unfold reload. rewrite Hg.
+  rewrite (int64_small (c + 1)) by lia.
+  rewrite (int64_small (c * S)) by lia.
+  rewrite (int64_small ((c + 1) * S)) by lia.
+  destruct ((c + 1) * S <? c * S) eqn:E; [lia | reflexivity].
+Qed.
+
+Lemma reload_err g a : (forall c, a <> StoreOk c) -> reload g a = (Some OErrStore, g).
+Proof. intros H. destruct a; try reflexivity. exfalso. apply (H c). reflexivity. Qed.
+
+Lemma init_ok S g c :
+  1 <= S -> g_step g = S -> fits S c -> init g (StoreOk c) = (OInitOk, mkGen S c (c * S)).
+Proof. intros. unfold init. erewrite reload_ok by eassumption. reflexivity. Qed.
+
+Lemma init_err g a : (forall c, a <> StoreOk c) -> init g a = (OErrStore, g).
+Proof. intros H. unfold init. rewrite reload_err by assumption. reflexivity. Qed.
+
+Lemma needs_reload_spec S g :
+  1 <= S -> gen_ok S g ->
+  needs_reload g = negb (g_last g + 1 <=? (g_counter g + 1) * S).
+Proof.
+  intros HS (Hg & (F1 & F2 & F3 & F4) & Hl). unfold needs_reload. rewrite Hg.
+  rewrite (int64_small (g_counter g + 1)) by lia.
+  rewrite (int64_small (g_last g + 1)) by lia.
+  rewrite (int64_small ((g_counter g + 1) * S)) by lia. reflexivity.
+Qed.
+
+(* inside the segment: the successor, the store is not asked *)
+Lemma next_inside S g a :
+  1 <= S -> gen_ok S g -> g_last g < (g_counter g + 1) * S ->
+  needs_reload g = false /\
+  next g a = (OId (g_last g + 1), mkGen S (g_counter g) (g_last g + 1)).
+Proof.
+  intros HS Hok Hlt. pose proof (needs_reload_spec S g HS Hok) as Hn.
+  assert (needs_reload g = false) as Hf by (rewrite Hn; destruct (g_last g + 1 <=? _) eqn:E; [reflexivity | lia]).
+  split; [exact Hf|]. unfold next. rewrite Hf.
+  destruct Hok as (Hg & (F1 & F2 & F3 & F4) & Hl).
+  rewrite (int64_small (g_last g + 1)) by lia. rewrite Hg. reflexivity.
+Qed.
+
+(* segment used up: the store is asked; a successful answer opens the new segment *)
+Lemma next_reload S g c :
+  1 <= S -> gen_ok S g -> g_last g = (g_counter g + 1) * S -> fits S c ->
+  needs_reload g = true /\
+  next g (StoreOk c) = (OId (c * S + 1), mkGen S c (c * S + 1)).
+Proof.
+  intros HS Hok Heq Hc. pose proof (needs_reload_spec S g HS Hok) as Hn.
+  assert (needs_reload g = true) as Ht by (rewrite Hn; destruct (g_last g + 1 <=? _) eqn:E; [lia | reflexivity]).
+  split; [exact Ht|]. unfold next. rewrite Ht.
+  destruct Hok as (Hg & _ & _).
+  rewrite (reload_ok S g c HS Hg Hc). cbn [g_last g_step g_counter].
+  destruct Hc as (F1 & F2 & F3 & F4). rewrite (int64_small (c * S + 1)) by lia. reflexivity.
+Qed.
+
+Lemma next_reload_err S g a :
+  1 <= S -> gen_ok S g -> g_last g = (g_counter g + 1) * S -> (forall c, a <> StoreOk c) ->
+  needs_reload g = true /\ next g a = (OErrStore, g).
+Proof.
+  intros HS Hok Heq Ha. pose proof (needs_reload_spec S g HS Hok) as Hn.
+  assert (needs_reload g = true) as Ht by (rewrite Hn; destruct (g_last g + 1 <=? _) eqn:E; [lia | reflexivity]).
+  split; [exact Ht|]. unfold next. rewrite Ht. rewrite reload_err by assumption. reflexivity.
+Qed.
+
+(* the store's answer is looked at only when the store is asked *)
+Lemma next_ignores_answer g a a' : needs_reload g = false -> next g a = next g a'.
+Proof. intros H. unfold next. rewrite H. reflexivity. Qed.
+
 (* a failed store call leaves the generator as it was and surfaces as an error *)
 Lemma next_store_error g a :
-  needs_reload g = true -> (a = StoreErrBefore \/ exists c, a = StoreErrAfter c) ->
-  next g a = (OErrStore, g).
+  needs_reload g = true -> (forall c, a <> StoreOk c) -> next g a = (OErrStore, g).
+Proof. intros H Ha. unfold next. rewrite H. rewrite reload_err by assumption. reflexivity. Qed.
+
+(* list facts missing from the 8.16 library *)
+Lemma NoDup_app_l {A} (a b : list A) : NoDup (a ++ b) -> NoDup a.
 Proof.
-  intros H [-> | [c ->]]; unfold next; rewrite H; reflexivity.
+  induction a as [|x a IH]; cbn; intros H; [constructor|].
+  inversion H as [|? ? Hn Hd]; subst. constructor; [|apply IH; assumption].
+  intro Hin. apply Hn. apply in_or_app. left. assumption.
 Qed.
+
+Lemma NoDup_app_r {A} (a b : list A) : NoDup (a ++ b) -> NoDup b.
+Proof. induction a as [|x a IH]; cbn; intros H; [assumption|]. inversion H; subst. apply IH. assumption. Qed.
+
+Lemma NoDup_app_disjoint {A} (a b : list A) x : NoDup (a ++ b) -> In x a -> ~ In x b.
+Proof.
+  induction a as [|y a IH]; cbn; intros H Hin; [contradiction|].
+  inversion H as [|? ? Hn Hd]; subst. destruct Hin as [->|Hin].
+  - intro Hb. apply Hn. apply in_or_app. right. assumption.
+  - apply IH; assumption.
+Qed.
+
+Lemma NoDup_snoc {A} (l : list A) x : NoDup l -> ~ In x l -> NoDup (l ++ [x]).
+Proof.
+  induction l as [|y l IH]; cbn; intros H Hn; [repeat constructor; intros []|].
+  inversion H as [|? ? Hy Hd]; subst. constructor.
+  - intro Hin. apply in_app_or in Hin. destruct Hin as [Hin|[->|[]]]; [contradiction|]. apply Hn. left. reflexivity.
+  - apply IH; [assumption|]. intro Hin. apply Hn. right. assumption.
+Qed.
+
+(* ------------------------------------------------------------------------------------ *)
+(* traces                                                                                *)
+
+Lemma run_app w h1 h2 : run w (h1 ++ h2) = run w h1 ++ run (final w h1) h2.
+Proof.
+  revert w. induction h1 as [|e h1 IH]; intros w; cbn [app run final]; [reflexivity|].
+  destruct (step w e) as [[o asked] w'] eqn:E. cbn [snd]. rewrite IH. reflexivity.
+Qed.
+
+Lemma final_app w h1 h2 : final w (h1 ++ h2) = final (final w h1) h2.
+Proof. revert w. induction h1 as [|e h1 IH]; intros w; cbn [app final]; [reflexivity | apply IH]. Qed.
+
+Lemma issued_app a b : issued (a ++ b) = issued a ++ issued b.
+Proof.
+  induction a as [|[[e o] k] a IH]; cbn [app issued]; [reflexivity|].
+  destruct o; cbn [app]; rewrite IH; reflexivity.
+Qed.
+
+Lemma ids_app a b : ids (a ++ b) = ids a ++ ids b.
+Proof. unfold ids. rewrite issued_app, map_app. reflexivity. Qed.
+
+Lemma leases_app a b : leases (a ++ b) = leases a ++ leases b.
+Proof.
+  induction a as [|[[e o] k] a IH]; cbn [app leases]; [reflexivity|].
+  destruct e as [g s|g x|g x|g]; try (rewrite IH; reflexivity);
+    destruct x; try (rewrite IH; reflexivity); destruct k; cbn [app]; rewrite IH; reflexivity.
+Qed.
+
+Definition lease_cs (tr : list (event * out * bool)) : list Z := map snd (leases tr).
+
+Lemma lease_cs_app a b : lease_cs (a ++ b) = lease_cs a ++ lease_cs b.
+Proof. unfold lease_cs. rewrite leases_app, map_app. reflexivity. Qed.
+
+(* ------------------------------------------------------------------------------------ *)
+(* the property's premise, as a boolean predicate on histories                           *)
+
+Definition eff_step (s : Z) : Z := g_step (new_gen s).
+
+Definition steps_ok (S : Z) (h : list event) : bool :=
+  forallb (fun e => match e with ENew _ s => eff_step s =? S | _ => true end) h.
+
+(* Next is called only on generators whose Init has succeeded *)
+Fixpoint ready_use (w : world) (h : list event) : bool :=
+  match h with
+  | [] => true
+  | e :: r =>
+      match e with
+      | ENext g _ => match w g with Some sl => s_ready sl | None => true end
+      | _ => true
+      end && ready_use (snd (step w e)) r
+  end.
+
+Fixpoint nodupb (l : list Z) : bool :=
+  match l with
+  | [] => true
+  | x :: r => negb (existsb (Z.eqb x) r) && nodupb r
+  end.
+
+Definition fitsb (S c : Z) : bool :=
+  (- 2 ^ 63 <=? c * S) && ((c + 1) * S + 1 <? 2 ^ 63) && (- 2 ^ 63 <=? c) && (c + 1 <? 2 ^ 63).
+
+(* one step size S >= 1 for all generators of the store; generators are used after a successful
+   Init; the store hands out each counter value at most once; no int64 overflow *)
+Definition premise (S : Z) (h : list event) : bool :=
+  (1 <=? S) && steps_ok S h && ready_use empty h &&
+  nodupb (lease_cs (run empty h)) && forallb (fitsb S) (lease_cs (run empty h)).
+
+Lemma nodupb_spec l : nodupb l = true <-> NoDup l.
+Proof.
+  induction l as [|x l IH]; cbn [nodupb]; [split; [constructor | reflexivity]|].
+  rewrite andb_true_iff, negb_true_iff, IH. split.
+  - intros [H1 H2]. constructor; [|assumption]. intro Hin.
+    assert (existsb (Z.eqb x) l = true) by (apply existsb_exists; exists x; split; [assumption | apply Z.eqb_refl]).
+    congruence.
+  - intros H. inversion H as [|? ? Hn Hd]; subst. split; [|assumption].
+    destruct (existsb (Z.eqb x) l) eqn:E; [|reflexivity].
+    apply existsb_exists in E. destruct E as [y [Hy He]]. apply Z.eqb_eq in He. subst y. contradiction.
+Qed.
+
+Lemma fitsb_spec S c : fitsb S c = true <-> fits S c.
+Proof. unfold fitsb, fits. rewrite !andb_true_iff. lia. Qed.
+
+Lemma ready_use_app w h1 h2 :
+  ready_use w (h1 ++ h2) = ready_use w h1 && ready_use (final w h1) h2.
+Proof.
+  revert w. induction h1 as [|e h1 IH]; intros w; cbn [app ready_use final]; [reflexivity|].
+  rewrite IH. rewrite andb_assoc. reflexivity.
+Qed.
+
+Lemma premise_prefix S h e : premise S (h ++ [e]) = true -> premise S h = true.
+Proof.
+  unfold premise. rewrite !andb_true_iff. intros ((((H1 & H2) & H3) & H4) & H5).
+  unfold steps_ok in *. rewrite forallb_app in H2. rewrite ready_use_app in H3.
+  rewrite run_app, lease_cs_app in H4, H5. rewrite forallb_app in H5.
+  apply andb_true_iff in H2, H3, H5.
+  apply nodupb_spec in H4. apply NoDup_app_l in H4. apply nodupb_spec in H4.
+  tauto.
+Qed.
+
+(* ------------------------------------------------------------------------------------ *)
+(* the invariant of a store shared by any number of generators                           *)
+
+Lemma seg_disjoint S c c' i : 1 <= S -> in_seg S c i -> in_seg S c' i -> c = c'.
+Proof. unfold in_seg. intros HS H1 H2. nia. Qed.
+
+Record Inv (S : Z) (w : world) (I L : list Z) : Prop := mkInv {
+  inv_step : forall g sl, w g = Some sl -> g_step (s_gen sl) = S;
+  inv_ready : forall g sl, w g = Some sl -> s_ready sl = true ->
+      gen_ok S (s_gen sl) /\ In (g_counter (s_gen sl)) L /\
+      (forall i, In i I -> in_seg S (g_counter (s_gen sl)) i -> i <= g_last (s_gen sl));
+  inv_sep : forall g g' sl sl', g <> g' -> w g = Some sl -> w g' = Some sl' ->
+      s_ready sl = true -> s_ready sl' = true -> g_counter (s_gen sl) <> g_counter (s_gen sl');
+  inv_seg : forall i, In i I -> exists c, In c L /\ in_seg S c i;
+  inv_nodup : NoDup I
+}.
+
+Lemma inv_empty S : Inv S empty [] [].
+Proof.
+  constructor; unfold empty; try discriminate.
+  - intros i [].
+  - constructor.
+Qed.
+
+Lemma upd_same w g v : upd w g v g = v.
+Proof. unfold upd. rewrite Nat.eqb_refl. reflexivity. Qed.
+Lemma upd_other w g v x : x <> g -> upd w g v x = w x.
+Proof. intros H. unfold upd. destruct (Nat.eqb_spec x g); [contradiction | reflexivity]. Qed.
+
+(* replacing a slot by a slot that is not ready (New) or by nothing (crash) *)
+Lemma inv_drop S w I L g v :
+  Inv S w I L ->
+  (forall sl, v = Some sl -> g_step (s_gen sl) = S /\ s_ready sl = false) ->
+  Inv S (upd w g v) I L.
+Proof.
+  intros [Ha Hb Hc Hd He] Hv. constructor; try assumption.
+  - intros x sl. destruct (Nat.eq_dec x g) as [->|Hne].
+    + rewrite upd_same. intros ->. apply (Hv sl eq_refl).
+    + rewrite upd_other by assumption. apply Ha.
+  - intros x sl. destruct (Nat.eq_dec x g) as [->|Hne].
+    + rewrite upd_same. intros -> Hr. destruct (Hv sl eq_refl) as [_ Hf]. congruence.
+    + rewrite upd_other by assumption. apply Hb.
+  - intros x y sl sl' Hxy. destruct (Nat.eq_dec x g) as [->|Hx]; destruct (Nat.eq_dec y g) as [->|Hy];
+      rewrite ?upd_same, ?upd_other by assumption.
+    + contradiction.
+    + intros -> _ Hr. destruct (Hv sl eq_refl) as [_ Hf]. congruence.
+    + intros _ -> _ Hr. destruct (Hv sl' eq_refl) as [_ Hf]. congruence.
+    + apply Hc. assumption.
+Qed.
+
+(* a slot rewritten with the same generator state and readiness *)
+Lemma inv_same S w I L g sl :
+  Inv S w I L -> w g = Some sl -> Inv S (upd w g (Some (mkSlot (s_gen sl) (s_ready sl)))) I L.
+Proof.
+  intros [Ha Hb Hc Hd He] Hw. constructor; try assumption.
+  - intros x s. destruct (Nat.eq_dec x g) as [->|Hne].
+    + rewrite upd_same. intros [= <-]. cbn. apply (Ha g sl Hw).
+    + rewrite upd_other by assumption. apply Ha.
+  - intros x s. destruct (Nat.eq_dec x g) as [->|Hne].
+    + rewrite upd_same. intros [= <-]. cbn. apply (Hb g sl Hw).
+    + rewrite upd_other by assumption. apply Hb.
+  - intros x y s s' Hxy. destruct (Nat.eq_dec x g) as [->|Hx]; destruct (Nat.eq_dec y g) as [->|Hy];
+      rewrite ?upd_same, ?upd_other by assumption.
+    + contradiction.
+    + intros [= <-] Hy'. cbn. apply (Hc g y sl s' Hxy Hw Hy').
+    + intros Hx' [= <-]. cbn. apply (Hc x g s sl Hxy Hx' Hw).
+    + apply Hc. assumption.
+Qed.
+
+(* a generator takes the fresh counter c; if it comes from Next, the first id of the segment
+   is issued at once *)
+Lemma inv_lease S w I L g sl c (first : bool) :
+  1 <= S -> Inv S w I L -> w g = Some sl -> ~ In c L -> fits S c ->
+  Inv S (upd w g (Some (mkSlot (mkGen S c (if first then c * S + 1 else c * S)) true)))
+        (if first then I ++ [c * S + 1] else I) (L ++ [c]).
+Proof.
+  intros HS [Ha Hb Hc Hd He] Hw Hfresh Hfit.
+  assert (Hnoseg : forall i, In i I -> ~ in_seg S c i).
+  { intros i Hi Hseg. destruct (Hd i Hi) as [c0 [Hc0 Hs0]].
+    assert (c0 = c) by (eapply seg_disjoint; eassumption). subst. contradiction. }
+  assert (Hfirst : in_seg S c (c * S + 1)) by (unfold in_seg; lia).
+  constructor.
+  - intros x s. destruct (Nat.eq_dec x g) as [->|Hne].
+    + rewrite upd_same. intros [= <-]. reflexivity.
+    + rewrite upd_other by assumption. apply Ha.
+  - intros x s. destruct (Nat.eq_dec x g) as [->|Hne].
+    + rewrite upd_same. intros [= <-] _. cbn [s_gen g_counter g_last g_step]. split; [|split].
+      * unfold gen_ok, fits in *. cbn [g_counter g_last g_step]. destruct first; repeat split; lia.
+      * apply in_or_app. right. left. reflexivity.
+      * intros i Hi Hseg. destruct first.
+        -- apply in_app_or in Hi. destruct Hi as [Hi|[<-|[]]]; [exfalso; eapply Hnoseg; eassumption | lia].
+        -- exfalso; eapply Hnoseg; eassumption.
+    + rewrite upd_other by assumption. intros Hx Hr. destruct (Hb x s Hx Hr) as (G1 & G2 & G3).
+      split; [assumption|]. split; [apply in_or_app; left; assumption|].
+      intros i Hi Hseg. destruct first; [|apply G3; assumption].
+      apply in_app_or in Hi. destruct Hi as [Hi|[<-|[]]]; [apply G3; assumption|].
+      exfalso. assert (g_counter (s_gen s) = c) by (eapply seg_disjoint; eassumption). subst c. contradiction.
+  - intros x y s s' Hxy. destruct (Nat.eq_dec x g) as [->|Hx]; destruct (Nat.eq_dec y g) as [->|Hy];
+      rewrite ?upd_same, ?upd_other by assumption.
+    + contradiction.
+    + intros [= <-] Hy' _ Hr. cbn. destruct (Hb y s' Hy' Hr) as (_ & G2 & _). intros E. apply Hfresh. rewrite E. exact G2.
+    + intros Hx' [= <-] Hr _. cbn. destruct (Hb x s Hx' Hr) as (_ & G2 & _). intros E. apply Hfresh. rewrite <- E. exact G2.
+    + apply Hc. assumption.
+  - intros i Hi. destruct first.
+    + apply in_app_or in Hi. destruct Hi as [Hi|[<-|[]]].
+      * destruct (Hd i Hi) as [c0 [H1 H2]]. exists c0. split; [apply in_or_app; left|]; assumption.
+      * exists c. split; [apply in_or_app; right; left; reflexivity | assumption].
+    + destruct (Hd i Hi) as [c0 [H1 H2]]. exists c0. split; [apply in_or_app; left|]; assumption.
+  - destruct first; [|assumption].
+    apply NoDup_snoc; [assumption|]. intro Hi. eapply Hnoseg; eassumption.
+Qed.
+
+(* a generator issues the successor inside its segment *)
+Lemma inv_succ S w I L g sl :
+  1 <= S -> Inv S w I L -> w g = Some sl -> s_ready sl = true ->
+  g_last (s_gen sl) < (g_counter (s_gen sl) + 1) * S ->
+  Inv S (upd w g (Some (mkSlot (mkGen S (g_counter (s_gen sl)) (g_last (s_gen sl) + 1)) true)))
+        (I ++ [g_last (s_gen sl) + 1]) L.
+Proof.
+  intros HS [Ha Hb Hc Hd He] Hw Hr Hlt.
+  destruct (Hb g sl Hw Hr) as ((K1 & K2 & K3) & K4 & K5).
+  set (c := g_counter (s_gen sl)) in *. set (l := g_last (s_gen sl)) in *.
+  assert (Hseg : in_seg S c (l + 1)) by (unfold in_seg; lia).
+  constructor.
+  - intros x s. destruct (Nat.eq_dec x g) as [->|Hne].
+    + rewrite upd_same. intros [= <-]. reflexivity.
+    + rewrite upd_other by assumption. apply Ha.
+  - intros x s. destruct (Nat.eq_dec x g) as [->|Hne].
+    + rewrite upd_same. intros [= <-] _. cbn [s_gen g_counter g_last g_step]. split; [|split].
+      * unfold gen_ok, fits in *. cbn [g_counter g_last g_step]. repeat split; lia.
+      * assumption.
+      * intros i Hi Hs. apply in_app_or in Hi. destruct Hi as [Hi|[<-|[]]]; [|lia].
+        specialize (K5 i Hi Hs). lia.
+    + rewrite upd_other by assumption. intros Hx Hr'. destruct (Hb x s Hx Hr') as (G1 & G2 & G3).
+      split; [assumption|]. split; [assumption|].
+      intros i Hi Hs. apply in_app_or in Hi. destruct Hi as [Hi|[<-|[]]]; [apply G3; assumption|].
+      exfalso. assert (g_counter (s_gen s) = c) by (eapply seg_disjoint; eassumption).
+      apply (Hc x g s sl Hne Hx Hw Hr' Hr). assumption.
+  - intros x y s s' Hxy. destruct (Nat.eq_dec x g) as [->|Hx]; destruct (Nat.eq_dec y g) as [->|Hy];
+      rewrite ?upd_same, ?upd_other by assumption.
+    + contradiction.
+    + intros [= <-] Hy' _ Hr'. cbn. apply (Hc g y sl s' Hxy Hw Hy' Hr Hr').
+    + intros Hx' [= <-] Hr' _. cbn. apply (Hc x g s sl Hxy Hx' Hw Hr' Hr).
+    + apply Hc. assumption.
+  - intros i Hi. apply in_app_or in Hi. destruct Hi as [Hi|[<-|[]]]; [apply Hd; assumption|].
+    exists c. split; assumption.
+  - apply NoDup_snoc; [assumption|]. intro Hi. specialize (K5 _ Hi Hseg). lia.
+Qed.
+
+(* ------------------------------------------------------------------------------------ *)
+(* the invariant holds after every history that meets the premise                        *)
+
+Lemma not_ok_cases a : (exists c, a = StoreOk c) \/ (forall c, a <> StoreOk c).
+Proof. destruct a; [left; eexists; reflexivity | right; discriminate | right; discriminate]. Qed.
+
+Lemma leases_false e o : leases [(e, o, false)] = [].
+Proof. destruct e as [g s|g a|g a|g]; try reflexivity; destruct a; reflexivity. Qed.
+
+Lemma inv_run S h :
+  premise S h = true -> Inv S (final empty h) (ids (run empty h)) (lease_cs (run empty h)).
+Proof.
+  induction h as [|e h IH] using rev_ind; intros HP; [apply inv_empty|].
+  specialize (IH (premise_prefix _ _ _ HP)).
+  unfold premise in HP. rewrite !andb_true_iff in HP. destruct HP as ((((H1 & H2) & H3) & H4) & H5).
+  apply Z.leb_le in H1.
+  unfold steps_ok in H2. rewrite forallb_app in H2. apply andb_true_iff in H2. destruct H2 as [_ H2].
+  cbn [forallb] in H2. rewrite andb_true_r in H2.
+  rewrite ready_use_app in H3. apply andb_true_iff in H3. destruct H3 as [_ H3].
+  cbn [ready_use] in H3. rewrite andb_true_r in H3.
+  rewrite run_app, lease_cs_app in H4, H5. apply nodupb_spec in H4.
+  rewrite forallb_app in H5. apply andb_true_iff in H5. destruct H5 as [_ H5].
+  rewrite final_app, run_app, ids_app, lease_cs_app.
+  remember (final empty h) as w eqn:Ew. remember (ids (run empty h)) as I eqn:EI. remember (lease_cs (run empty h)) as L eqn:EL.
+  clear Ew EI EL.
+  cbn [final run]. destruct e as [g s|g a|g a|g]; cbn [step].
+  - (* New *)
+    cbn [snd]. unfold ids, lease_cs. cbn. rewrite !app_nil_r.
+    apply inv_drop; [assumption|]. intros sl [= <-]. cbn. split; [|reflexivity].
+    apply Z.eqb_eq in H2. exact H2.
+  - (* Init *)
+    destruct (w g) as [sl|] eqn:Hw.
+    2:{ cbn [snd]. unfold ids, lease_cs. rewrite leases_false. cbn [issued map]. rewrite !app_nil_r. assumption. }
+    pose proof (inv_step _ _ _ _ IH g sl Hw) as Hstep.
+    destruct (not_ok_cases a) as [[c ->]|Ha].
+    + assert (Hrun : lease_cs (run w [EInit g (StoreOk c)]) = [c]).
+      { cbn [run step]. rewrite Hw. destruct (init (s_gen sl) (StoreOk c)). reflexivity. }
+      rewrite Hrun in H4, H5. cbn [forallb] in H5. rewrite andb_true_r in H5. apply fitsb_spec in H5.
+      apply NoDup_remove_2 in H4. rewrite app_nil_r in H4.
+      rewrite (init_ok S _ c H1 Hstep H5).
+      cbn [snd]. unfold ids, lease_cs. cbn [issued leases map snd]. rewrite app_nil_r.
+      apply (inv_lease S w I L g sl c false H1 IH Hw H4 H5).
+    + rewrite (init_err _ _ Ha). cbn [snd]. unfold ids, lease_cs.
+      assert (leases [(EInit g a, OErrStore, true)] = []) as -> by (destruct a; try reflexivity; exfalso; eapply Ha; reflexivity).
+      cbn [issued map]. rewrite !app_nil_r.
+      apply (inv_same S w I L g sl IH Hw).
+  - (* Next *)
+    destruct (w g) as [sl|] eqn:Hw.
+    2:{ cbn [snd]. unfold ids, lease_cs. rewrite leases_false. cbn [issued map]. rewrite !app_nil_r. assumption. }
+    destruct (inv_ready _ _ _ _ IH g sl Hw H3) as (Hok & HinL & Hle).
+    pose proof Hok as (Hstep & Hfits & Hrange).
+    destruct (Z.lt_ge_cases (g_last (s_gen sl)) ((g_counter (s_gen sl) + 1) * S)) as [Hlt|Hge].
+    + (* inside the segment *)
+      destruct (next_inside S (s_gen sl) a H1 Hok Hlt) as [Hnr Hnext].
+      rewrite Hnext, Hnr. cbn [snd]. unfold ids, lease_cs.
+      assert (leases [(ENext g a, OId (g_last (s_gen sl) + 1), false)] = []) as -> by (destruct a; reflexivity).
+      cbn [issued map snd ev_gen]. rewrite app_nil_r. rewrite H3.
+      apply inv_succ; assumption.
+    + assert (Heq : g_last (s_gen sl) = (g_counter (s_gen sl) + 1) * S) by lia.
+      destruct (not_ok_cases a) as [[c ->]|Ha].
+      * destruct (next_reload_err S (s_gen sl) StoreErrBefore H1 Hok Heq ltac:(discriminate)) as [Hnr0 _].
+        assert (Hrun : lease_cs (run w [ENext g (StoreOk c)]) = [c]).
+        { cbn [run step]. rewrite Hw, Hnr0. destruct (next (s_gen sl) (StoreOk c)). reflexivity. }
+        rewrite Hrun in H4, H5. cbn [forallb] in H5. rewrite andb_true_r in H5. apply fitsb_spec in H5.
+        apply NoDup_remove_2 in H4. rewrite app_nil_r in H4.
+        pose proof H5 as Hfc. pose proof H4 as HnL.
+        destruct (next_reload S (s_gen sl) c H1 Hok Heq Hfc) as [Hnr Hnext].
+        rewrite Hnext, Hnr. cbn [snd]. unfold ids, lease_cs. cbn [issued leases map snd ev_gen]. rewrite H3.
+        apply (inv_lease S w I L g sl c true H1 IH Hw HnL Hfc).
+      * destruct (next_reload_err S (s_gen sl) a H1 Hok Heq Ha) as [Hnr Hnext].
+        rewrite Hnext, Hnr. cbn [snd]. unfold ids, lease_cs.
+        assert (leases [(ENext g a, OErrStore, true)] = []) as -> by (destruct a; try reflexivity; exfalso; eapply Ha; reflexivity).
+        cbn [issued map]. rewrite !app_nil_r.
+        apply (inv_same S w I L g sl IH Hw).
+  - (* Crash *)
+    cbn [snd]. unfold ids, lease_cs. cbn. rewrite !app_nil_r.
+    apply inv_drop; [assumption|]. intros sl [=].
+Qed.
+
+(* ------------------------------------------------------------------------------------ *)
+(* consequences for whole histories                                                      *)
+
+Lemma all_distinct_thm S h : premise S h = true -> NoDup (ids (run empty h)).
+Proof. intros H. exact (inv_nodup _ _ _ _ (inv_run S h H)). Qed.
+
+Lemma in_some_segment_thm S h i :
+  premise S h = true -> In i (ids (run empty h)) ->
+  exists c, In c (lease_cs (run empty h)) /\ c * S < i <= (c + 1) * S.
+Proof. intros H Hi. exact (inv_seg _ _ _ _ (inv_run S h H) i Hi). Qed.
+
+(* a generator re-created after a crash never re-issues an id from before the crash —
+   nor does any other generator *)
+Lemma crash_no_reissue_thm S h1 g h2 i :
+  premise S (h1 ++ ECrash g :: h2) = true ->
+  In i (ids (run empty h1)) ->
+  ~ In i (ids (run (final empty h1) (ECrash g :: h2))).
+Proof.
+  intros H Hi. pose proof (all_distinct_thm S _ H) as Hn.
+  rewrite run_app, ids_app in Hn. eapply NoDup_app_disjoint; eassumption.
+Qed.
+
+(* ------------------------------------------------------------------------------------ *)
+(* one incarnation of one generator: its ids lie in its own segments and increase        *)
+
+Definition resets (g : nat) (e : event) : bool :=
+  match e with ENew g' _ | ECrash g' => Nat.eqb g' g | _ => false end.
+
+(* the ids obtained by the current incarnation of g (since its last New / crash) *)
+Fixpoint cur_ids (g : nat) (acc : list Z) (tr : list (event * out * bool)) : list Z :=
+  match tr with
+  | [] => acc
+  | (e, o, _) :: r =>
+      cur_ids g (if resets g e then []
+                 else match o with
+                      | OId id => if Nat.eqb (ev_gen e) g then acc ++ [id] else acc
+                      | _ => acc
+                      end) r
+  end.
+
+Definition lease_of (g : nat) (x : event * out * bool) : option Z :=
+  match x with
+  | (EInit g' (StoreOk c), _, true) | (ENext g' (StoreOk c), _, true) =>
+      if Nat.eqb g' g then Some c else None
+  | _ => None
+  end.
+
+(* the counters obtained by the current incarnation of g *)
+Fixpoint cur_leases (g : nat) (acc : list Z) (tr : list (event * out * bool)) : list Z :=
+  match tr with
+  | [] => acc
+  | x :: r =>
+      cur_leases g (if resets g (fst (fst x)) then []
+                    else match lease_of g x with Some c => acc ++ [c] | None => acc end) r
+  end.
+
+Lemma cur_ids_app g acc a b : cur_ids g acc (a ++ b) = cur_ids g (cur_ids g acc a) b.
+Proof. revert acc. induction a as [|[[e o] k] a IH]; intros acc; cbn [app cur_ids]; [reflexivity | apply IH]. Qed.
+
+Lemma cur_leases_app g acc a b : cur_leases g acc (a ++ b) = cur_leases g (cur_leases g acc a) b.
+Proof. revert acc. induction a as [|x a IH]; intros acc; cbn [app cur_leases]; [reflexivity | apply IH]. Qed.
+
+Lemma sorted_snoc l y : StronglySorted Z.lt l -> (forall x, In x l -> x < y) -> StronglySorted Z.lt (l ++ [y]).
+Proof.
+  induction l as [|a l IH]; cbn; intros Hs Hy; [repeat constructor|].
+  inversion Hs as [|? ? Hs' Hf]; subst. constructor.
+  - apply IH; [assumption|]. intros x Hx. apply Hy. right. assumption.
+  - apply Forall_app. split; [assumption|]. constructor; [|constructor]. apply Hy. left. reflexivity.
+Qed.
+
+Lemma sorted_snoc_inv l y : StronglySorted Z.lt (l ++ [y]) -> StronglySorted Z.lt l /\ forall x, In x l -> x < y.
+Proof.
+  induction l as [|a l IH]; cbn; intros Hs; [split; [constructor | intros x []]|].
+  inversion Hs as [|? ? Hs' Hf]; subst. destruct (IH Hs') as [H1 H2].
+  apply Forall_app in Hf. destruct Hf as [Hf1 Hf2]. split.
+  - constructor; assumption.
+  - intros x [<-|Hx]; [inversion Hf2; assumption | apply H2; assumption].
+Qed.
+
+Definition PG (S : Z) (g : nat) (w : world) (Ig Cg : list Z) : Prop :=
+  match w g with
+  | Some sl =>
+      if s_ready sl then
+        (exists C0, Cg = C0 ++ [g_counter (s_gen sl)]) /\
+        (forall i, In i Ig -> exists c, In c Cg /\ in_seg S c i) /\
+        (StronglySorted Z.lt Cg ->
+           StronglySorted Z.lt Ig /\ forall i, In i Ig -> i <= g_last (s_gen sl))
+      else Ig = [] /\ Cg = []
+  | None => Ig = [] /\ Cg = []
+  end.
+
+Lemma pg_run S g h :
+  premise S h = true ->
+  PG S g (final empty h) (cur_ids g [] (run empty h)) (cur_leases g [] (run empty h)).
+Proof.
+  induction h as [|e h IH] using rev_ind; intros HP.
+  { unfold PG, empty. cbn. split; reflexivity. }
+  pose proof (premise_prefix _ _ _ HP) as HP'. specialize (IH HP').
+  pose proof (inv_run S h HP') as HI.
+  unfold premise in HP. rewrite !andb_true_iff in HP. destruct HP as ((((H1 & _) & H3) & _) & H5).
+  apply Z.leb_le in H1.
+  rewrite ready_use_app in H3. apply andb_true_iff in H3. destruct H3 as [_ H3].
+  cbn [ready_use] in H3. rewrite andb_true_r in H3.
+  rewrite run_app, lease_cs_app, forallb_app in H5. apply andb_true_iff in H5. destruct H5 as [_ H5].
+  rewrite final_app, run_app, cur_ids_app, cur_leases_app.
+  remember (final empty h) as w eqn:Ew. remember (cur_ids g [] (run empty h)) as Ig eqn:EI.
+  remember (cur_leases g [] (run empty h)) as Cg eqn:EC.
+  remember (ids (run empty h)) as I eqn:EI'. remember (lease_cs (run empty h)) as L eqn:EL.
+  clear Ew EI EC EI' EL HP' h.
+  cbn [final run]. destruct e as [g' s|g' a|g' a|g']; cbn [step].
+  - (* New *)
+    cbn [snd cur_ids cur_leases resets fst lease_of]. unfold PG in *.
+    destruct (Nat.eqb_spec g' g) as [->|Hne].
+    + rewrite upd_same. cbn. split; reflexivity.
+    + rewrite upd_other by congruence. exact IH.
+  - (* Init *)
+    destruct (w g') as [sl|] eqn:Hw.
+    2:{ cbn [snd cur_ids cur_leases resets fst lease_of ev_gen]. 
+        destruct a; exact IH. }
+    pose proof (inv_step _ _ _ _ HI g' sl Hw) as Hstep.
+    destruct (not_ok_cases a) as [[c ->]|Ha].
+    + assert (Hrun : lease_cs (run w [EInit g' (StoreOk c)]) = [c]).
+      { cbn [run step]. rewrite Hw. destruct (init (s_gen sl) (StoreOk c)). reflexivity. }
+      rewrite Hrun in H5. cbn [forallb] in H5. rewrite andb_true_r in H5. apply fitsb_spec in H5.
+      rewrite (init_ok S _ c H1 Hstep H5).
+      cbn [snd cur_ids cur_leases resets fst lease_of ev_gen].
+      unfold PG in *. destruct (Nat.eqb_spec g' g) as [->|Hne].
+      * rewrite upd_same. cbn [s_ready s_gen g_counter g_last]. rewrite Hw in IH.
+        split; [exists Cg; reflexivity|].
+        destruct (s_ready sl) eqn:Hr.
+        -- destruct IH as ([C0 HC0] & Hseg & Hsort).
+           destruct (inv_ready _ _ _ _ HI g sl Hw Hr) as ((_ & _ & Hrange) & _ & _).
+           split.
+           ++ intros i Hi. destruct (Hseg i Hi) as [c0 [Hc0 Hs0]]. exists c0. split; [apply in_or_app; left|]; assumption.
+           ++ intros Hs. apply sorted_snoc_inv in Hs. destruct Hs as [Hs Hlt].
+              destruct (Hsort Hs) as [Hs' Hle]. split; [assumption|].
+              intros i Hi. specialize (Hle i Hi).
+              assert (g_counter (s_gen sl) < c) by (apply Hlt; rewrite HC0; apply in_or_app; right; left; reflexivity).
+              nia.
+        -- destruct IH as [-> ->]. split; [intros i []|]. intros _. split; [constructor | intros i []].
+      * rewrite upd_other by congruence. exact IH.
+    + rewrite (init_err _ _ Ha). cbn [snd cur_ids cur_leases resets fst ev_gen].
+      assert (lease_of g (EInit g' a, OErrStore, true) = None) as -> by (destruct a; try reflexivity; exfalso; eapply Ha; reflexivity).
+      unfold PG in *. destruct (Nat.eqb_spec g' g) as [->|Hne].
+      * rewrite upd_same. rewrite Hw in IH. cbn [s_ready s_gen]. exact IH.
+      * rewrite upd_other by congruence. exact IH.
+  - (* Next *)
+    destruct (w g') as [sl|] eqn:Hw.
+    2:{ cbn [snd cur_ids cur_leases resets fst lease_of ev_gen].
+        destruct a; exact IH. }
+    destruct (inv_ready _ _ _ _ HI g' sl Hw H3) as (Hok & _ & _).
+    pose proof Hok as (Hstep & Hfits & Hrange).
+    destruct (Z.lt_ge_cases (g_last (s_gen sl)) ((g_counter (s_gen sl) + 1) * S)) as [Hlt|Hge].
+    + destruct (next_inside S (s_gen sl) a H1 Hok Hlt) as [Hnr Hnext].
+      rewrite Hnext, Hnr. cbn [snd cur_ids cur_leases resets fst ev_gen].
+      assert (lease_of g (ENext g' a, OId (g_last (s_gen sl) + 1), false) = None) as -> by (destruct a; reflexivity).
+      unfold PG in *. destruct (Nat.eqb_spec g' g) as [->|Hne].
+      * rewrite upd_same. rewrite Hw, H3 in IH. rewrite H3. cbn [s_ready s_gen g_counter g_last].
+        destruct IH as (HC0 & Hseg & Hsort). split; [exact HC0|]. split.
+        -- intros i Hi. apply in_app_or in Hi. destruct Hi as [Hi|[<-|[]]]; [apply Hseg; assumption|].
+           exists (g_counter (s_gen sl)). split.
+           ++ destruct HC0 as [C0 ->]. apply in_or_app. right. left. reflexivity.
+           ++ unfold in_seg. lia.
+        -- intros Hs. destruct (Hsort Hs) as [Hs' Hle]. split.
+           ++ apply sorted_snoc; [assumption|]. intros x Hx. specialize (Hle x Hx). lia.
+           ++ intros i Hi. apply in_app_or in Hi. destruct Hi as [Hi|[<-|[]]]; [specialize (Hle i Hi)|]; lia.
+      * rewrite upd_other by congruence. exact IH.
+    + assert (Heq : g_last (s_gen sl) = (g_counter (s_gen sl) + 1) * S) by lia.
+      destruct (not_ok_cases a) as [[c ->]|Ha].
+      * destruct (next_reload_err S (s_gen sl) StoreErrBefore H1 Hok Heq ltac:(discriminate)) as [Hnr0 _].
+        assert (Hrun : lease_cs (run w [ENext g' (StoreOk c)]) = [c]).
+        { cbn [run step]. rewrite Hw, Hnr0. destruct (next (s_gen sl) (StoreOk c)). reflexivity. }
+        rewrite Hrun in H5. cbn [forallb] in H5. rewrite andb_true_r in H5. apply fitsb_spec in H5.
+        destruct (next_reload S (s_gen sl) c H1 Hok Heq H5) as [Hnr Hnext].
+        rewrite Hnext, Hnr. cbn [snd cur_ids cur_leases resets fst lease_of ev_gen].
+        unfold PG in *. destruct (Nat.eqb_spec g' g) as [->|Hne].
+        -- rewrite upd_same. rewrite Hw, H3 in IH. rewrite H3. cbn [s_ready s_gen g_counter g_last].
+           destruct IH as ([C0 HC0] & Hseg & Hsort). split; [exists Cg; reflexivity|]. split.
+           ++ intros i Hi. apply in_app_or in Hi. destruct Hi as [Hi|[<-|[]]].
+              ** destruct (Hseg i Hi) as [c0 [Hc0 Hs0]]. exists c0. split; [apply in_or_app; left|]; assumption.
+              ** exists c. split; [apply in_or_app; right; left; reflexivity|]. unfold in_seg. lia.
+           ++ intros Hs. apply sorted_snoc_inv in Hs. destruct Hs as [Hs Hltc].
+              destruct (Hsort Hs) as [Hs' Hle].
+              assert (g_counter (s_gen sl) < c) by (apply Hltc; rewrite HC0; apply in_or_app; right; left; reflexivity).
+              split.
+              ** apply sorted_snoc; [assumption|]. intros x Hx. specialize (Hle x Hx). nia.
+              ** intros i Hi. apply in_app_or in Hi. destruct Hi as [Hi|[<-|[]]]; [specialize (Hle i Hi); nia | lia].
+        -- rewrite upd_other by congruence. exact IH.
+      * destruct (next_reload_err S (s_gen sl) a H1 Hok Heq Ha) as [Hnr Hnext].
+        rewrite Hnext, Hnr. cbn [snd cur_ids cur_leases resets fst ev_gen].
+        assert (lease_of g (ENext g' a, OErrStore, true) = None) as -> by (destruct a; try reflexivity; exfalso; eapply Ha; reflexivity).
+        unfold PG in *. destruct (Nat.eqb_spec g' g) as [->|Hne].
+        -- rewrite upd_same. rewrite Hw in IH. cbn [s_ready s_gen]. exact IH.
+        -- rewrite upd_other by congruence. exact IH.
+  - (* Crash *)
+    cbn [snd cur_ids cur_leases resets fst lease_of]. unfold PG in *.
+    destruct (Nat.eqb_spec g' g) as [->|Hne].
+    + rewrite upd_same. split; reflexivity.
+    + rewrite upd_other by congruence. exact IH.
+Qed.
+
+Lemma premise_app S h1 h2 : premise S (h1 ++ h2) = true -> premise S h1 = true.
+Proof.
+  induction h2 as [|e h2 IH] using rev_ind; [rewrite app_nil_r; auto|].
+  rewrite app_assoc. intros H. apply IH. eapply premise_prefix. exact H.
+Qed.
+
+Lemma in_own_segment_thm S h g i :
+  premise S h = true -> In i (cur_ids g [] (run empty h)) ->
+  exists c, In c (cur_leases g [] (run empty h)) /\ c * S < i <= (c + 1) * S.
+Proof.
+  intros HP Hi. pose proof (pg_run S g h HP) as H. unfold PG in H.
+  destruct (final empty h g) as [sl|].
+  - destruct (s_ready sl).
+    + destruct H as (_ & Hseg & _). exact (Hseg i Hi).
+    + destruct H as [H _]. rewrite H in Hi. destruct Hi.
+  - destruct H as [H _]. rewrite H in Hi. destruct Hi.
+Qed.
+
+Lemma increasing_thm S h g :
+  premise S h = true ->
+  StronglySorted Z.lt (cur_leases g [] (run empty h)) ->
+  StronglySorted Z.lt (cur_ids g [] (run empty h)).
+Proof.
+  intros HP Hs. pose proof (pg_run S g h HP) as H. unfold PG in H.
+  destruct (final empty h g) as [sl|].
+  - destruct (s_ready sl).
+    + destruct H as (_ & _ & Hsort). exact (proj1 (Hsort Hs)).
+    + destruct H as [-> _]. constructor.
+  - destruct H as [-> _]. constructor.
+Qed.
+
+(* store errors: the error surfaces, nothing is consumed, and the next successful answer
+   opens a fresh segment at its first id *)
+Lemma store_error_thm S g a c :
+  1 <= S -> gen_ok S g -> (forall c0, a <> StoreOk c0) -> fits S c ->
+  (needs_reload g = false -> forall a', next g a = next g a') /\
+  (needs_reload g = true ->
+     next g a = (OErrStore, g) /\
+     next g (StoreOk c) = (OId (c * S + 1), mkGen S c (c * S + 1))) /\
+  init g a = (OErrStore, g).
+Proof.
+  intros HS Hok Ha Hc. split; [|split].
+  - intros Hn a'. apply next_ignores_answer. assumption.
+  - intros Hn. split; [apply next_store_error; assumption|].
+    pose proof (needs_reload_spec S g HS Hok) as Hspec. rewrite Hn in Hspec.
+    destruct Hok as (Hg & Hf & Hr).
+    assert (g_last g = (g_counter g + 1) * S).
+    { destruct (g_last g + 1 <=? (g_counter g + 1) * S) eqn:E; [discriminate | lia]. }
+    apply (next_reload S g c HS (conj Hg (conj Hf Hr)) H Hc).
+  - apply init_err. assumption.
+Qed.
+
+(* ------------------------------------------------------------------------------------ *)
+(* the adapters' guard                                                                   *)
+
+Fixpoint somes (l : list (option Z)) : list Z :=
+  match l with
+  | [] => []
+  | Some v :: r => v :: somes r
+  | None :: r => somes r
+  end.
+
+Lemma guard_run_sorted raws : forall last,
+  Forall (fun r => r <> 0) raws ->
+  StronglySorted Z.lt (somes (guard_run last raws)) /\
+  (last <> 0 -> Forall (fun v => last < v) (somes (guard_run last raws))).
+Proof.
+  induction raws as [|r raws IH]; intros last Hnz; cbn [guard_run somes]; [split; constructor|].
+  inversion Hnz as [|? ? Hr Hrest]; subst. unfold guard.
+  destruct (negb (last =? 0) && (last >=? r)) eqn:E.
+  - cbn [somes]. apply IH. assumption.
+  - cbn [somes]. destruct (IH r Hrest) as [IH1 IH2]. specialize (IH2 Hr). split.
+    + constructor; assumption.
+    + intros Hl. assert (last < r).
+      { apply andb_false_iff in E. destruct E as [E|E]; [apply negb_false_iff in E; lia | lia]. }
+      constructor; [assumption|]. eapply Forall_impl; [|exact IH2]. cbn. intros; lia.
+Qed.
+
+Lemma guard_monotone_thm raws :
+  Forall (fun r => r <> 0) raws -> StronglySorted Z.lt (somes (guard_run 0 raws)).
+Proof. intros H. exact (proj1 (guard_run_sorted raws 0 H)). Qed.
+
+(* what the guard lets through is the raw value itself *)
+Lemma guard_value last raw : fst (guard last raw) = None \/ fst (guard last raw) = Some raw.
+Proof. unfold guard. destruct (negb (last =? 0) && (last >=? raw)); [left | right]; reflexivity. Qed.
